@@ -413,7 +413,8 @@ def fmt_seg(s, term='~', ele='*', sub=':', icvn='00401', rep=None):
     if s.id == 'ISA':
         els = [x[0] for x in s.vals]
         els[15] = sub
-        if icvn == '00501':
+        # ISA11 is a separator field from 00501 on: by this header's own version (a file may hold both)
+        if (els[11] if len(els) > 11 and els[11] in ('00401', '00501') else icvn) == '00501':
             els[10] = rep or '^'
         return 'ISA' + ele + ele.join(els) + term
     els = [sub.join(x) for x in s.vals]
